@@ -12,7 +12,11 @@ package main
 //         relative to the working directory ...; see c09PlaceRoot).  The snapshot is always taken of
 //         the directory the name RESOLVES to (checked with the kernel: os.Stat(name) is the same file).
 //   0902  input (((dirstat view extra-links [rootform]) ...) target) -> ((snapshot ...) callbacks err)
-//         SubDirFS over one NewFS per sub-root
+//         SubDirFS over one NewFS per sub-root; target "" or a sub-target "name/rest"
+//   0904  input (view extra-links rootform (step ...)) -> (snapshot ((callbacks err) ...))
+//         walk HISTORY on one NewFS value: step = target (Walk) or list of paths (FollowLinks)
+//   0905  input (((dirstat view extra-links [rootform]) ...) (step ...)) -> ((snapshot ...) ((callbacks err) ...))
+//         walk history on one SubDirFS value
 //
 // The input is self-contained: `run` materialises the view in a scratch directory (as root on
 // ext4), applies the extra hard links, takes the independent snapshot (SnapshotRaw: its own
@@ -38,6 +42,8 @@ func init() {
 	kinds[0x0901] = run0901
 	kinds[0x0902] = run0902
 	kinds[0x0903] = run0903
+	kinds[0x0904] = run0904
+	kinds[0x0905] = run0905
 	props["C09"] = genC09
 }
 
@@ -174,54 +180,140 @@ func run0901(in Sx) Sx {
 	})
 }
 
+// c09Composite materialises every sub-root, snapshots it, opens one NewFS per sub-root and builds the
+// SubDirFS.  code: 0 = ok, 1 = NewFS refused a sub-root, 2 = SubDirFS refused the list (both are outcomes
+// of the code under test); herr = the harness itself failed.
+func c09Composite(sds Sx, dir string) (snaps []Sx, sfs fsutil.FS, code uint64, herr error) {
+	var dirs []fsutil.Dir
+	var newfsErr error
+	for i, sd := range sds.L {
+		rootform := 0
+		if len(sd.L) > 3 {
+			rootform = sd.L[3].Int()
+		}
+		sub := filepath.Join(dir, fmt.Sprintf("s%d", i))
+		if err := os.Mkdir(sub, 0755); err != nil {
+			return nil, nil, 0, err
+		}
+		realdir, root, err := c09PlaceRoot(sub, rootform)
+		if err != nil {
+			return nil, nil, 0, err
+		}
+		if err := c09Materialize(SxView(sd.L[1]), sd.L[2], realdir); err != nil {
+			return nil, nil, 0, err
+		}
+		if err := c09SameDir(root, realdir); err != nil {
+			return nil, nil, 0, err
+		}
+		snap, err := snapSx(realdir)
+		if err != nil {
+			return nil, nil, 0, err
+		}
+		snaps = append(snaps, snap)
+		f, err := fsutil.NewFS(root)
+		if err != nil {
+			newfsErr = err
+			continue
+		}
+		dirs = append(dirs, fsutil.Dir{Stat: SxStat(sd.L[0]), FS: f})
+	}
+	if newfsErr != nil {
+		return snaps, nil, 1, nil
+	}
+	sfs, err := fsutil.SubDirFS(dirs)
+	if err != nil {
+		return snaps, nil, 2, nil
+	}
+	return snaps, sfs, 0, nil
+}
+
 func run0902(in Sx) Sx {
 	return guarded(func() Sx {
 		dir := WorkDir("c09s-")
 		defer os.RemoveAll(dir)
-		var dirs []fsutil.Dir
-		var snaps []Sx
-		var newfsErr error
-		for i, sd := range in.L[0].L {
-			rootform := 0
-			if len(sd.L) > 3 {
-				rootform = sd.L[3].Int()
-			}
-			sub := filepath.Join(dir, fmt.Sprintf("s%d", i))
-			if err := os.Mkdir(sub, 0755); err != nil {
-				return harnessErr(err)
-			}
-			realdir, root, err := c09PlaceRoot(sub, rootform)
-			if err != nil {
-				return harnessErr(err)
-			}
-			if err := c09Materialize(SxView(sd.L[1]), sd.L[2], realdir); err != nil {
-				return harnessErr(err)
-			}
-			if err := c09SameDir(root, realdir); err != nil {
-				return harnessErr(err)
-			}
-			snap, err := snapSx(realdir)
-			if err != nil {
-				return harnessErr(err)
-			}
-			snaps = append(snaps, snap)
-			f, err := fsutil.NewFS(root)
-			if err != nil {
-				newfsErr = err
-				continue
-			}
-			dirs = append(dirs, fsutil.Dir{Stat: SxStat(sd.L[0]), FS: f})
+		snaps, sfs, code, herr := c09Composite(in.L[0], dir)
+		if herr != nil {
+			return harnessErr(herr)
 		}
-		if newfsErr != nil { // outcome of the code under test, reported as the walk's error
-			return L(L(snaps...), L(), N(1))
-		}
-		sfs, err := fsutil.SubDirFS(dirs)
-		if err != nil {
-			return L(L(snaps...), L(), N(2))
+		if code != 0 {
+			return L(L(snaps...), L(), N(code))
 		}
 		rec := &c09rec{}
 		werr := sfs.Walk(context.Background(), in.L[1].Str(), rec.dirFn)
 		return L(L(snaps...), L(rec.cbs...), errCode(werr))
+	})
+}
+
+// c09Steps runs a HISTORY on one FS value: a step is a target (x...) = Walk(ctx, target, fn) with Info()
+// on every entry, whose callbacks are recorded and judged, or a list of paths ((x...) ...) =
+// fsutil.FollowLinks(f, paths) (which walks the FS internally; its result is not part of this property).
+// Returns one (callbacks err) per Walk step.
+func c09Steps(f fsutil.FS, steps Sx, failCode uint64) []Sx {
+	var outs []Sx
+	for _, st := range steps.L {
+		if st.Kind == 'l' {
+			if f != nil {
+				var paths []string
+				for _, p := range st.L {
+					paths = append(paths, p.Str())
+				}
+				fsutil.FollowLinks(f, paths)
+			}
+			continue
+		}
+		if f == nil {
+			outs = append(outs, L(L(), N(failCode)))
+			continue
+		}
+		rec := &c09rec{}
+		werr := f.Walk(context.Background(), st.Str(), rec.dirFn)
+		outs = append(outs, L(L(rec.cbs...), errCode(werr)))
+	}
+	return outs
+}
+
+// run0904: input (view extra-links rootform (step ...)) -> (snapshot ((callbacks err) ...)): ONE NewFS value,
+// walked once per step.  Every walk must stand alone (seenFiles is per Walk call).
+func run0904(in Sx) Sx {
+	return guarded(func() Sx {
+		dir := WorkDir("c09h-")
+		defer os.RemoveAll(dir)
+		realdir, root, err := c09PlaceRoot(dir, in.L[2].Int())
+		if err != nil {
+			return harnessErr(err)
+		}
+		if err := c09Materialize(SxView(in.L[0]), in.L[1], realdir); err != nil {
+			return harnessErr(err)
+		}
+		if err := c09SameDir(root, realdir); err != nil {
+			return harnessErr(err)
+		}
+		snap, err := snapSx(realdir)
+		if err != nil {
+			return harnessErr(err)
+		}
+		f, err := fsutil.NewFS(root)
+		if err != nil {
+			f = nil
+		}
+		return L(snap, L(c09Steps(f, in.L[3], 1)...))
+	})
+}
+
+// run0905: input (((dirstat view extra-links [rootform]) ...) (step ...)) -> ((snapshot ...) ((callbacks err) ...)):
+// ONE SubDirFS value (hence one inner FS value per sub-root), walked once per step.
+func run0905(in Sx) Sx {
+	return guarded(func() Sx {
+		dir := WorkDir("c09t-")
+		defer os.RemoveAll(dir)
+		snaps, sfs, code, herr := c09Composite(in.L[0], dir)
+		if herr != nil {
+			return harnessErr(herr)
+		}
+		if code != 0 {
+			sfs = nil
+		}
+		return L(L(snaps...), L(c09Steps(sfs, in.L[1], code)...))
 	})
 }
 
@@ -689,6 +781,23 @@ func c09Directed() []c09case {
 	add(0x0902, L(L(L(dst("s"), classic, L(), NI(c09RootSymRel)), L(dst("r"), ViewSx(abs), L(), NI(c09RootSymDotDot)), L(dst("q"), classic, L(), NI(c09RootMidSymAbs))), S("")),
 		"sub-roots given as a symlink, as sl/../r (.. after a symlink) and through a symlinked parent")
 	add(0x0902, L(L(L(dst("s/t"), classic, L())), S("")), "sub-root name with separator")
+	// sub-root names where one is a proper string prefix of the other, sub-targets inside the longer one:
+	// the sub-root is selected by the whole first component
+	for _, t := range []string{"lib64", "lib64/a", "lib64/a/x", "lib", "lib/a-b", "lib6", "li", "lib64/missing", "lib64/", "/lib", "lib641"} {
+		add(0x0902, L(L(L(dst("lib"), classic, L()), L(dst("lib64"), ViewSx(abs), L()), L(dst("lib32"), L(), L())), S(t)), "sub-roots lib, lib32, lib64; target "+t)
+	}
+	add(0x0902, L(L(L(dst("a-b"), classic, L()), L(dst("a"), classic, L())), S("a-b/a")), "sub-roots a, a-b; target a-b/a")
+	// walk history on one FS value: every walk stands alone (the inode map is per Walk call)
+	hl := L(L(S("a/x"), S("a/z")))
+	fl := L(S("a/y"), S("a-b"))
+	for _, steps := range []Sx{L(S(""), S("")), L(S("a"), S("")), L(S("a-b"), S(""), S("a")), L(S("a/z"), S("a"), S("")),
+		L(fl, S("")), L(S("a"), fl, S("a")), L(S("missing"), S(""), S(""))} {
+		add(0x0904, L(classic, hl, NI(c09RootReal), steps), "one NewFS value, steps "+steps.String())
+	}
+	add(0x0904, L(classic, hl, NI(c09RootSymRel), L(S("a"), S(""))), "one NewFS value named through a symlink, sub-target then root")
+	for _, steps := range []Sx{L(S(""), S("")), L(S("s/a"), S("")), L(S("r"), S("s"), S(""))} {
+		add(0x0905, L(L(L(dst("s"), classic, hl), L(dst("r"), ViewSx(abs), L())), steps), "one SubDirFS value, steps "+steps.String())
+	}
 	return out
 }
 
@@ -813,81 +922,201 @@ func genC09(g *Gen) {
 		in := L(ViewSx(view), extras, S(target), NI(api), NI(rf))
 		g.Emit(0x0901, in, c09Nontrivial(view), fmt.Sprintf("walk-api%d-%s-%s-root:%s", api, tcls, cls, c09RootFormNames[rf]))
 	}
-	// (b) SubDirFS
-	m := g.Vol(80, 1500)
+	// (b) SubDirFS, whole walks and sub-targets
+	m := g.Vol(120, 2000)
 	for i := 0; i < m; i++ {
-		k := 1 + r.Intn(3)
-		pool := []string{"a", "a-b", "a b", "a.b", "b", "é", "a0", "sub", strings.Repeat("s", 255)}
-		var sds []Sx
-		var names []string
-		views := map[string][]*MNode{}
-		nontriv := false
-		cls := "subdirs"
-		rooted := ""
-		for j := 0; j < k; j++ {
-			name := Pick(r, pool)
-			if r.Chance(6) {
-				name = Pick(r, []string{"a/b", "", ".", "..", "/", "a/"})
-				cls = "subdirs-badname"
+		c := c09GenComposite(r)
+		target, tcls := c09CompositeTarget(r, c, 70)
+		g.Emit(0x0902, L(L(c.sds...), S(target)), c.nontriv, c.cls+tcls+c.rooted)
+	}
+	// (c) walk history on ONE NewFS value: 2..4 steps (root, sub-targets, root again, FollowLinks in
+	// between) over trees with hard-link groups; every walk is judged on its own
+	h := g.Vol(120, 2500)
+	for i := 0; i < h; i++ {
+		var view []*MNode
+		var extras Sx
+		var cls string
+		for try := 0; try < 4; try++ {
+			view, extras, cls = c09View(r, i%10 == 9)
+			if len(extras.L) > 0 {
+				break
 			}
-			names = append(names, name)
-			st := &types.Stat{Path: name, Mode: uint32(os.ModeDir) | uint32(Pick(r, []int{0755, 0700, 0711})),
-				Uid: uint32(Pick(r, []int{0, 1000})), Gid: uint32(Pick(r, []int{0, 5})),
-				ModTime: int64(1600000000+r.Intn(1000))*1e9 + int64(r.Intn(1e9))}
-			if r.Chance(20) {
-				st.Xattrs = map[string][]byte{"user.d": []byte("x")}
-			}
-			if r.Chance(4) {
-				st.Mode = 0644
-				cls = "subdirs-notdir"
-			}
-			view, extras, _ := c09View(r, false)
-			// absolute symlink targets are what the re-rooting is about
-			for _, f := range c09Flatten(view) {
-				if os.FileMode(f.n.Stat.Mode)&os.ModeSymlink != 0 && r.Chance(50) {
-					f.n.Stat.Linkname = Pick(r, []string{"/", "/a", "/a/b/", "/a/../b", "//x", "/.", "/é"})
-					f.n.Stat.Size = int64(len(f.n.Stat.Linkname))
+		}
+		flat := c09Flatten(view)
+		var steps []Sx
+		hcls := ""
+		nwalks := 2 + r.Intn(2)
+		for w := 0; w < nwalks; w++ {
+			if r.Chance(25) && len(flat) > 0 {
+				var paths []Sx
+				for q := 1 + r.Intn(3); q > 0; q-- {
+					paths = append(paths, S(Pick(r, flat).path))
 				}
+				steps = append(steps, L(paths...))
+				hcls += "F"
 			}
-			if c09Nontrivial(view) {
-				nontriv = true
-			}
-			if _, ok := views[name]; !ok {
-				views[name] = view
-			}
-			rf := c09RootReal
-			if r.Chance(35) {
-				rf = c09PickRootForm(r)
-			}
-			if rf != c09RootReal {
-				rooted = "-rooted"
-			}
-			sds = append(sds, L(StatSx(st), ViewSx(view), extras, NI(rf)))
-		}
-		sort.Strings(names)
-		for j := 1; j < len(names); j++ {
-			if names[j] == names[j-1] {
-				cls = "subdirs-dup"
+			if r.Chance(45) {
+				steps = append(steps, S(Pick(r, []string{"", "", "/", "."})))
+				hcls += "R"
+			} else {
+				t, _ := c09Target(r, view)
+				steps = append(steps, S(t))
+				hcls += "T"
 			}
 		}
-		target := ""
-		switch t := r.Intn(100); {
-		case t < 70:
-		case t < 80:
-			target = names[0]
-			cls += "-t1"
-		case t < 90:
-			// an existing entry of that sub-root (never through a symlink), or a missing one
-			sub := "missing"
-			if fl := c09Flatten(views[names[0]]); len(fl) > 0 && r.Chance(80) {
-				sub = Pick(r, fl).path
-			}
-			target = names[0] + "/" + sub
-			cls += "-t2"
-		default:
-			target = "nosuchsub"
-			cls += "-tx"
+		rf := c09PickRootForm(r)
+		g.Emit(0x0904, L(ViewSx(view), extras, NI(rf), L(steps...)), c09Nontrivial(view) && len(extras.L) > 0,
+			fmt.Sprintf("history-%s-%s", hcls, cls))
+	}
+	// (d) walk history on ONE SubDirFS value
+	hs := g.Vol(40, 800)
+	for i := 0; i < hs; i++ {
+		c := c09GenComposite(r)
+		var steps []Sx
+		hcls := ""
+		for w := 2 + r.Intn(2); w > 0; w-- {
+			t, tc := c09CompositeTarget(r, c, 40)
+			steps = append(steps, S(t))
+			hcls += tc
 		}
-		g.Emit(0x0902, L(L(sds...), S(target)), nontriv, cls+rooted)
+		g.Emit(0x0905, L(L(c.sds...), L(steps...)), c.nontriv, "history-"+c.cls+hcls+c.rooted)
+	}
+}
+
+type c09composite struct {
+	sds     []Sx
+	names   []string // as given (unsorted, possibly with duplicates / bad names)
+	views   map[string][]*MNode
+	nontriv bool
+	cls     string
+	rooted  string
+	long    string // the longer name of a prefix pair, if the sub-root names contain one
+}
+
+// c09GenComposite: 1..3 sub-roots.  A third of the cases have a pair of names where one is a proper
+// STRING prefix of the other (lib / lib64, a / a-b, 1 / 10, 254 x s / 255 x s): selecting the sub-root of a
+// sub-target must compare whole components.
+func c09GenComposite(r *Rng) *c09composite {
+	c := &c09composite{views: map[string][]*MNode{}, cls: "subdirs"}
+	k := 1 + r.Intn(3)
+	pool := []string{"a", "a-b", "a b", "a.b", "b", "é", "a0", "sub", "lib", "lib64", "1", "10", strings.Repeat("s", 255)}
+	var forced []string
+	if r.Chance(35) {
+		pairs := [][2]string{{"lib", "lib64"}, {"a", "a-b"}, {"a", "a b"}, {"1", "10"}, {"é", "é!"}, {"a", "a0"}, {"a", "aa"},
+			{strings.Repeat("s", 254), strings.Repeat("s", 255)}, {"x", "x\x01"}, {"x", "x\xff"}}
+		p := Pick(r, pairs)
+		forced = []string{p[0], p[1]}
+		if r.Chance(50) {
+			forced = []string{p[1], p[0]}
+		}
+		if k < 2 {
+			k = 2
+		}
+		c.long = p[1]
+		c.cls = "subdirs-prefixpair"
+	}
+	for j := 0; j < k; j++ {
+		name := Pick(r, pool)
+		if j < len(forced) {
+			name = forced[j]
+		} else if r.Chance(6) {
+			name = Pick(r, []string{"a/b", "", ".", "..", "/", "a/"})
+			c.cls = "subdirs-badname"
+		}
+		c.names = append(c.names, name)
+		st := &types.Stat{Path: name, Mode: uint32(os.ModeDir) | uint32(Pick(r, []int{0755, 0700, 0711})),
+			Uid: uint32(Pick(r, []int{0, 1000})), Gid: uint32(Pick(r, []int{0, 5})),
+			ModTime: int64(1600000000+r.Intn(1000))*1e9 + int64(r.Intn(1e9))}
+		if r.Chance(20) {
+			st.Xattrs = map[string][]byte{"user.d": []byte("x")}
+		}
+		if r.Chance(4) {
+			st.Mode = 0644
+			c.cls = "subdirs-notdir"
+		}
+		view, extras, _ := c09View(r, false)
+		// absolute symlink targets are what the re-rooting is about
+		for _, f := range c09Flatten(view) {
+			if os.FileMode(f.n.Stat.Mode)&os.ModeSymlink != 0 && r.Chance(50) {
+				f.n.Stat.Linkname = Pick(r, []string{"/", "/a", "/a/b/", "/a/../b", "//x", "/.", "/é"})
+				f.n.Stat.Size = int64(len(f.n.Stat.Linkname))
+			}
+		}
+		if c09Nontrivial(view) {
+			c.nontriv = true
+		}
+		if _, ok := c.views[name]; !ok {
+			c.views[name] = view
+		}
+		rf := c09RootReal
+		if r.Chance(35) {
+			rf = c09PickRootForm(r)
+		}
+		if rf != c09RootReal {
+			c.rooted = "-rooted"
+		}
+		c.sds = append(c.sds, L(StatSx(st), ViewSx(view), extras, NI(rf)))
+	}
+	sorted := append([]string{}, c.names...)
+	sort.Strings(sorted)
+	for j := 1; j < len(sorted); j++ {
+		if sorted[j] == sorted[j-1] {
+			c.cls = "subdirs-dup"
+		}
+	}
+	return c
+}
+
+// c09CompositeTarget: "" (whole walk) with probability whole%, otherwise a sub-target: a sub-root name, an
+// entry inside a sub-root, a missing entry, a name that is only a string prefix / extension of a sub-root
+// name, an unknown name, a leading or trailing separator.  With a prefix pair the longer name is preferred.
+func c09CompositeTarget(r *Rng, c *c09composite, whole int) (string, string) {
+	if r.Chance(whole) {
+		return Pick(r, []string{"", "", "", "/"}), "-w"
+	}
+	// only proper single-component names take part in targets: a target that climbs above a root
+	// ("..") is outside the model (props: assumptions)
+	var proper []string
+	for _, n := range c.names {
+		if n != "" && n != "." && n != ".." && !strings.Contains(n, "/") {
+			proper = append(proper, n)
+		}
+	}
+	if len(proper) == 0 {
+		return "nosuchsub", "-tx"
+	}
+	name := Pick(r, proper)
+	if c.long != "" && r.Chance(70) {
+		name = c.long
+	}
+	switch t := r.Intn(100); {
+	case t < 30:
+		return name, "-t1"
+	case t < 70:
+		// an existing entry of that sub-root (never through a symlink), or a missing one
+		sub := "missing"
+		if fl := c09Flatten(c.views[name]); len(fl) > 0 && r.Chance(80) {
+			f := Pick(r, fl)
+			for i := 0; i < 2 && !f.n.IsDir(); i++ {
+				f = Pick(r, fl)
+			}
+			sub = f.path
+		}
+		return name + "/" + sub + Pick(r, []string{"", "", "", "/"}), "-t2"
+	case t < 80:
+		// neither a sub-root nor nothing: one byte more or less than a sub-root name
+		if len(name) > 1 && r.Chance(50) {
+			return name[:len(name)-1] + Pick(r, []string{"", "/x"}), "-tp"
+		}
+		return name + Pick(r, []string{"6", "-", "\x01", "0/x"}), "-tp"
+	case t < 90:
+		// first component empty: every sub-root is walked at the remainder
+		sub := "missing"
+		if fl := c09Flatten(c.views[name]); len(fl) > 0 {
+			sub = Pick(r, fl).path
+		}
+		return "/" + Pick(r, []string{name, sub}), "-ts"
+	default:
+		return "nosuchsub", "-tx"
 	}
 }
